@@ -1,0 +1,50 @@
+//go:build verif
+
+package regexp2
+
+import "time"
+
+// Verification hook for property C14 (add-only, compiled only with -tags verif).
+// Read-only accessors of the shared timeout clock plus thin wrappers around the
+// unexported entry points, so that the correspondence harness can observe the state
+// abstraction (current, clockEnd, running, start != 0) the Coq model works on.
+
+// VerifClockSnapshot returns the clock state under the clock's own mutex.
+// sinceStart is time.Since(fast.start) in nanoseconds (0 when the clock was never started).
+func VerifClockSnapshot() (current, clockEnd int64, running, started bool, sinceStart int64) {
+	fast.mu.Lock()
+	defer fast.mu.Unlock()
+	started = !fast.start.IsZero()
+	if started {
+		sinceStart = int64(time.Since(fast.start))
+	}
+	return int64(fast.current.read()), int64(fast.clockEnd.read()), fast.running, started, sinceStart
+}
+
+// VerifClockMakeDeadline calls the real makeDeadline.
+func VerifClockMakeDeadline(d time.Duration) int64 { return int64(makeDeadline(d)) }
+
+// VerifClockReached calls the real fasttime.reached.
+func VerifClockReached(t int64) bool { return fasttime(t).reached() }
+
+// VerifClockPeriod returns the current clock period in nanoseconds.
+func VerifClockPeriod() int64 { return int64(clockPeriod) }
+
+// VerifClockTicks calls the real durationToTicks.
+func VerifClockTicks(d time.Duration) int64 { return int64(durationToTicks(d)) }
+
+// VerifClockReset puts a stopped clock back into its initial state (as the package's own
+// TestDeadline does), so that a recorded history starts from the state the model calls init.
+// It reports false, and changes nothing, while a clock goroutine is still running: the caller
+// stops the clock first (StopTimeoutClock).
+func VerifClockReset() bool {
+	fast.mu.Lock()
+	defer fast.mu.Unlock()
+	if fast.running {
+		return false
+	}
+	fast.current.write(0)
+	fast.clockEnd.write(0)
+	fast.start = time.Time{}
+	return true
+}
